@@ -390,6 +390,28 @@ CHECKS = {
          "configurations per quick run (process spawn dominates the cost)",
          "runtime monitoring across a real process boundary (value oracle + "
          "layout invariant)", "4 C29"),
+ "C23": ("exploration",
+         "2-3 participants run the real ParallelEtherCat.run() enter / hold "
+         "/ exit under a gate scheduler: every file-system, lock and kernel "
+         "operation they issue (mkdtemp, open 'x', rename, rmdir, remove, "
+         "rmtree, os.open, pread, pwrite, ftruncate, lockf, obj_pin, "
+         "obj_get, attach, detach, the 0.1 s retry sleep) is a scheduling "
+         "point. All schedules with at most 2 (quick) / 3 (thorough) "
+         "preemptions are enumerated for 2 participants, seeded random "
+         "schedules for 3. A history checker over the recorded effects "
+         "decides: installers never overlap, no detach / unpin while "
+         "another participant runs or installs, a running participant "
+         "always has the dispatcher attached and the table pinned, "
+         "ethertypes of concurrent participants differ, logical windows of "
+         "live participants are disjoint.",
+         "participants are threads with a lock table standing in for "
+         "per-process POSIX record locks; attach / pin are recording stubs "
+         "with the real error behaviour; random choices are narrowed to "
+         "1..3 values so that collisions are reachable; crash points are "
+         "not explored (the statement gives no expected outcome)",
+         "runtime monitoring under a controlled scheduler (bounded-"
+         "preemption schedule enumeration + offline history checker)",
+         "4 C23"),
 }
 
 NOT_YET = "check not built yet in this round (design in DESIGN.md section 4)"
